@@ -70,11 +70,11 @@ Proof.
   - destruct (step ca mx pool (s_a (prep ca cb mx pool s o)) o) as [[st' out] bare] eqn:Es.
     apply andb_true_iff in Hc. destruct Hc as [Hbare Hc]. destruct bare; [discriminate|].
     destruct (step_all ca mx pool o _ pa st' out Wa Ha Ia1 Es) as (Hspec & HI & Hsees).
-    split; [exact Hspec|]. split; [exact Hsees|]. apply IH; auto.
+    split; [exact Hspec|]. split; [eapply told_sees; exact Hsees|]. apply IH; auto.
   - destruct (step cb mx pool (s_b (prep ca cb mx pool s o)) o) as [[st' out] bare] eqn:Es.
     apply andb_true_iff in Hc. destruct Hc as [Hbare Hc]. destruct bare; [discriminate|].
     destruct (step_all cb mx pool o _ pb st' out Wb Hb Ib1 Es) as (Hspec & HI & Hsees).
-    split; [exact Hspec|]. split; [exact Hsees|]. apply IH; auto.
+    split; [exact Hspec|]. split; [eapply told_sees; exact Hsees|]. apply IH; auto.
 Qed.
 
 Theorem two_stacks : forall ca cb mx pool h, WF ca -> WF cb -> HintSound ca mx pool -> HintSound cb mx pool ->
